@@ -1072,9 +1072,11 @@ func runC11(c *Ctx) {
 	ruleHandOver(c, "R11.3")
 	ruleDispatchOrdered(c, "R11.4")
 	ruleDispatchLossless(c, "R11.5")
-	ruleSchemeStorePut(c, "R11.8") // what is dispatched to streams is the beacon that was stored: each layer forwards its own beacon
-	ruleLayering(c, "R11.7")       // rounds obtained by sync are stored through the dispatching layer too: live streams hear of them
-	ruleAppendStorePut(c, "R11.6") // the layer below the dispatcher refuses a round it already holds: no round is dispatched twice
+	ruleLayersPropagateFailure(c, "R11.9") // a round the database refused is not dispatched: every layer reports the failure of the layer below
+	ruleResponseOneBeacon(c, "R11.10")     // each message of a stream is built from one stored beacon
+	ruleSchemeStorePut(c, "R11.8")         // what is dispatched to streams is the beacon that was stored: each layer forwards its own beacon
+	ruleLayering(c, "R11.7")               // rounds obtained by sync are stored through the dispatching layer too: live streams hear of them
+	ruleAppendStorePut(c, "R11.6")         // the layer below the dispatcher refuses a round it already holds: no round is dispatched twice
 }
 
 // R11.5: callbackStore.Put hands the stored beacon to every subscriber queue, unconditionally.
